@@ -145,6 +145,27 @@ def format_group(args):
     return out
 
 
+def rust_repeated_failures(a):
+    """(child) a long-running job that keeps retrying: many Rust passes over a split with a missing shard, in one process;
+    every attempt must raise (returns the outcomes; a frozen interpreter is noticed by the parent)."""
+    sp.sedpack(rust=True)
+    from sedpack.io import Dataset
+    root = Path(a["root"]); shutil.rmtree(root, ignore_errors=True)
+    ds, written = I.build_dataset(root, "fb", a["comp"], 2, [{"sub": ".", "writes": [(0, 8)]}])
+    files = [ds.path / si.file_infos[0].file_path for si in ds.shard_info_iterator("train")]
+    files[1].unlink()
+    out = []
+    for k in range(a["attempts"]):
+        try:
+            got, _ = I.run_iface(Dataset(root), "rust", "train", shuffle=0, T=2)
+            out.append(f"ended:{len(got)}")
+        except BaseException as e:  # noqa: BLE001
+            out.append("raised")
+        Path(a["progress"]).write_text(str(k + 1))
+    shutil.rmtree(root, ignore_errors=True)
+    return out
+
+
 def decoder_rejects(args):
     """(child) does decoding the damaged file alone fail?"""
     sp.sedpack()
@@ -230,6 +251,18 @@ def run(ctx):
     if corr_bad and not ctx.violations and not ctx.known_hits:
         ctx.report({"kind": "correspondence"}, f"M-POOL does not accept / does not end in the re-raised state: {corr_bad[0]}",
                    {"correspondence": "M-POOL accepts(trace with failing input)", "theorem": "Sedpack.Pool.C07_pool_fault_raises", "cases": corr_bad[:3]}, name="corr", nofail=True)
+    # ---- Rust: failures do not accumulate: 90 passes over a split with a missing shard in one process all raise, none hangs
+    ra = {"root": str(ctx.scratch / "c07_retry"), "comp": ["LZ4", ""][ctx.seed % 2], "attempts": ctx.pick(90, 200), "progress": str(ctx.scratch / "c07_retry.progress")}
+    try:
+        outs = child.call("harness.checks.c07", "rust_repeated_failures", ra, timeout=240)
+        bad = [(k, o) for k, o in enumerate(outs) if o != "raised"]
+        if bad:
+            ctx.report({"kind": "ended", "iface": "rust", "repeated": True}, f"Rust pass number {bad[0][0] + 1} over a split with a missing shard (same process, earlier passes failed too): {bad[0][1]}", {"case": ra, "outcomes": outs[:100]})
+    except child.ChildTimeout:
+        done = Path(ra["progress"]).read_text() if Path(ra["progress"]).exists() else "0"
+        ctx.report({"kind": "hang", "iface": "rust", "repeated": True},
+                   f"repeated Rust passes over a split with a missing shard in one process: attempt {int(done) + 1} of {ra['attempts']} did not return within 240 s (the earlier ones raised within milliseconds)", {"case": ra, "completed": done})
+    ctx.cov["rust_repeated_failures"] = ra["attempts"]
     # ---- Rust: parallel_map with a mapped function that panics on one item (cargo harness of C15, SEDPACK_VERIF hook): the pass
     # raises, never ends short; the recorded channel operations — plus the consumer's failing `next`, which logs nothing — are
     # accepted by M-PMAP's fault-aware step (`fstep`, repaired `next`) and leave the model failed with the same output
